@@ -292,10 +292,11 @@ def run_job_inner(job):
                 bof = [t for t in e["new"] if ci.kind.get(t[1]) == "bof"]
                 if bof and not any(ci.kind.get(t[1]) == "bof" for t in old_toks):
                     old_toks = bof + old_toks
-                recs.append({"owner": owner, "rule": st.rule, "params": pcache[st.rule], "action": e.get("action_data"), "indents": e.get("old_indents"), "old": old_toks, "new": e["new"]})
+                recs.append({"owner": owner, "rule": st.rule, "params": pcache[st.rule], "action": e.get("action_data"), "indents": e.get("old_indents"), "attrs": e.get("viol_attrs"), "old": old_toks, "new": e["new"]})
         if recs:
             nm, unm, mism = bfix.replay_records(recs, _W["ncls"])
             out["bfix_replayed"] = nm
+            out["bfix_by_owner"] = dict(collections.Counter(sweep_short(r["owner"]) for r in recs))
             for m in mism[:3]:
                 fails.append({"prop": "CORR", "site": sweep_short(m["owner"]), "kind": "bfix-mismatch", "detail": json.dumps(m, default=str)[:1500], "input": describe(job, style, dicts, text)})
     out["tois"] = state["tois"]
@@ -367,7 +368,7 @@ def make_jobs(tier, features=("trace",), limit=None):
 
 
 def aggregate(results):
-    agg = {"bfix_replayed": 0, "bfix_unmodelled": collections.Counter(), "bfix_skipped_overlap": 0, "runs": 0, "rejected": 0, "steps": 0, "changed_steps": 0, "fired": collections.Counter(), "upd": collections.Counter(), "failures": [], "fail_counts": collections.Counter(), "configs": collections.Counter(), "variants": collections.Counter(), "tokens": 0, "lines": 0, "tois": 0, "idem": 0, "harness_errors": []}
+    agg = {"bfix_by_owner": collections.Counter(), "bfix_replayed": 0, "bfix_unmodelled": collections.Counter(), "bfix_skipped_overlap": 0, "runs": 0, "rejected": 0, "steps": 0, "changed_steps": 0, "fired": collections.Counter(), "upd": collections.Counter(), "failures": [], "fail_counts": collections.Counter(), "configs": collections.Counter(), "variants": collections.Counter(), "tokens": 0, "lines": 0, "tois": 0, "idem": 0, "harness_errors": []}
     seen = set()
     for r in results:
         agg["runs"] += 1
@@ -388,13 +389,14 @@ def aggregate(results):
         agg["bfix_replayed"] += r.get("bfix_replayed", 0)
         agg["bfix_skipped_overlap"] += r.get("bfix_skipped_overlap", 0)
         agg["bfix_unmodelled"].update(r.get("bfix_unmodelled", {}))
+        agg["bfix_by_owner"].update(r.get("bfix_by_owner", {}))
         for f in r["failures"]:
             key = (f["prop"], f["site"], f["kind"])
             agg["fail_counts"]["%s|%s|%s" % key] += 1
             if key not in seen:
                 seen.add(key)
                 agg["failures"].append(f)
-    for k in ("fired", "upd", "fail_counts", "configs", "variants", "bfix_unmodelled"):
+    for k in ("fired", "upd", "fail_counts", "configs", "variants", "bfix_unmodelled", "bfix_by_owner"):
         agg[k] = dict(agg[k])
     return agg
 
